@@ -96,7 +96,8 @@ class C07(Check):
                 s['expected'] = st('order').random() < 0.5
             s['kind'] = core.weighted(st('order'), imgsim.CHUNK_KINDS)
             if mode == 'bare' and st('order').random() < 0.12:
-                s['tracing'] = True
+                s['tracing'] = ('debug' if st('order').random() < 0.5
+                                else True)
             qrng = st('queries')
             if qrng.random() < 0.3:
                 # the caller looks at the inspector while the stream is
@@ -196,7 +197,10 @@ class C07(Check):
                 bump(fa, 'empty_chunk', sizes.count(0))
             if len([x for x in sizes if x]) <= 1:
                 bump(pr, 'single_chunk')
-            final, trace = self._run(fmt, data, sizes, s)
+            try:
+                final, trace = self._run(fmt, data, sizes, s)
+            finally:
+                imgsim.debug_logging(False)
             bump(fa, 'prefix_query_without_finish', len(trace))
             log.add('sched', s['mode'], s['fam'], len(sizes), final,
                     trace[-3:])
@@ -250,7 +254,7 @@ class C07(Check):
         """-> (final virtual_size, [(pos, value) after every chunk])."""
         trace = []
         if s['mode'] == 'bare':
-            insp = imgsim.new_inspector(fmt, bool(s.get('tracing')))
+            insp = imgsim.new_inspector(fmt, s.get('tracing') or False)
             pos = 0
             err = False
             qp = s.get('q') or {}
